@@ -729,6 +729,23 @@ func genPackCase(r *Rng, family string) *PackCase {
 		c.Chown = &[2]int{r.pickID(), r.pickID()}
 	}
 	c.Overlay = r.chance(1, 5)
+	if c.Overlay && r.chance(1, 3) {
+		// an overlay whiteout (0/0 character device) archived on its own and renamed on the way: the standard whiteout
+		// carries the new name
+		for _, n := range c.Nodes {
+			if n.Kind == 'c' && n.Maj == 0 && n.Min == 0 && strings.HasPrefix(n.Path, c.Src+"/") {
+				rel := strings.TrimPrefix(n.Path, c.Src+"/")
+				c.Includes = []string{rel}
+				nn := "gone" + fmt.Sprint(r.intn(3))
+				if i := strings.LastIndex(rel, "/"); i >= 0 {
+					nn = rel[:i+1] + nn
+				}
+				c.Rebase = map[string]string{rel: nn}
+				c.ISD = false
+				break
+			}
+		}
+	}
 	// the host side of the jail: something unrelated lives, on the host, at the path the source has INSIDE the
 	// root (the host's /src is not the root's /src). A producer that looks before it is jailed sees it.
 	if c.Op == "tar-chroot" && r.chance(1, 3) {
